@@ -173,3 +173,48 @@ func runConflictingLevelHint() {
 			report(l, cls, w, cases[i])
 		})
 }
+
+// runGS1: the GS1_FORMAT hint in every spelling x every content family (the FNC1 indicator stands
+// in front of whatever mode the content gets, Kanji included, and behind an ECI header) x versions
+// {1, 7, 27, 40} x levels x lengths {1, half, the capacity less the indicator's four bits}.
+func runGS1() {
+	var cases []mxCase
+	for _, v := range []int{1, 7, 27, 40} {
+		for _, lv := range levels {
+			for _, g := range []string{"true", "strue", "false", "sfalse"} {
+				for fam := famNumeric; fam < famRaw; fam++ {
+					full := capOf(fam, v, lv.ref)
+					for _, n := range []int{1, full / 2, full - 1, full} {
+						if n < 1 {
+							continue
+						}
+						cases = append(cases, mxCase{Kind: "encode", V: v, Level: lv.name, Mask: (v + n + len(g)) % 8, Family: famNames[fam], Len: n, Pat: 1, GS1: g})
+					}
+				}
+			}
+		}
+	}
+	chk.Range(fmt.Sprintf("Encoder_encode with the GS1_FORMAT hint {true, \"true\", false, \"false\"} x families {numeric, alphanumeric, byte, byte+ECI, Kanji} x versions {1,7,27,40} x levels x lengths {1, half, capacity-1, capacity}: FNC1 indicator in front of the first mode indicator (behind the ECI header) iff the value is true; a content that fills the symbol to less than four free bits is refused with it [%d cases]", len(cases)), len(cases),
+		func(i int) string { return caseID(cases[i]) },
+		func(l *mc.Local, i int) {
+			cls, w := runMatrixCase(l, cases[i])
+			if cls == "encode/error" || cls == "encode/error/terminator-shortened" {
+				// with the four bits of the indicator the content may no longer fit: compare with the reference
+				c := cases[i]
+				if c.GS1 == "true" || c.GS1 == "strue" {
+					fam := famIndex(c.Family)
+					_, payload := content(fam, c.Len, c.Pat)
+					eci := -1
+					if fam == famByteECI {
+						eci = 1
+					}
+					li := levelIndex(c.Level)
+					if _, e := qr.DataCodewordsFor([]qr.Segment{{Mode: famModes[fam], Data: payload, ECI: eci, FNC1: true}}, c.V, levels[li].ref); e != nil {
+						l.Count("gs1_cases_that_no_longer_fit", 1)
+						return
+					}
+				}
+			}
+			report(l, cls, w, cases[i])
+		})
+}
